@@ -22,6 +22,7 @@ import MF.Gen.SqlGo
 import MF.Model.Handlers
 import MF.Model.TypeParse
 import MF.Spec.TypeReads
+import MF.Model.Bridge
 open MF MF.Lex
 
 def hx (b : Bytes) : String := if b.isEmpty then "-" else toHex b
@@ -155,6 +156,16 @@ def handle (line : String) : String :=
       s!"{hx (Quote.quoteString isPrint buf)} {hx (Quote.quoteBytes buf)} {qi}"
     | _, _ => "BADREQ"
   | "TREE" :: prune :: toks => treeRun (prune.toNat?.getD 0) toks
+  | ["BRIDGE", kind, h, np] =>
+    -- np: the runes of the tree's string fields that Go's unicode.IsPrint rejects (as on the TREE channel)
+    match ofHex? (if h == "-" then "" else h), ofHex? (if np == "-" then "" else np) with
+    | some buf, some npb =>
+      let nps := runes4 npb
+      let isPrint := fun (r : Nat) => !nps.contains r
+      if kind == "E" then Bridge.bridgeRunE posTables Gen.sqlTables isPrint buf
+      else if kind == "T" then Bridge.bridgeRunT posTables Gen.sqlTables isPrint buf
+      else "BADREQ"
+    | _, _ => "BADREQ"
   | ["SPEC", h] =>
     match ofHex? (if h == "-" then "" else h) with
     | some buf =>
